@@ -82,11 +82,16 @@ def binOperandOk : BinaryOperand → Bool
   | .literalInteger v => i64Ok v
   | .memoryReference _ => true
 
+/-- a raw name split at its first `/` -/
+def splitAtSlash : List Char → List Char × Option (List Char)
+  | [] => ([], none)
+  | c :: cs => if c = '/' then ([], some cs) else ((splitAtSlash cs).1.cons c, (splitAtSlash cs).2)
+
 /-- `name` or `name/extension` with slash-free, non-empty parts (`parse_waveform_name`) -/
 def wfNameOk (s : String) : Bool :=
-  match s.toList.span (· != '/') with
-  | (a, []) => !a.isEmpty
-  | (a, _ :: b) => !a.isEmpty && !b.isEmpty && !b.contains '/'
+  match splitAtSlash s.toList with
+  | (a, none) => !a.isEmpty
+  | (a, some b) => !a.isEmpty && !b.isEmpty && !b.contains '/'
 
 def distinctKeys {V : Type} (m : List (String × V)) : Bool := (m.map (·.1)).Nodup
 
@@ -232,7 +237,7 @@ def provedKind : Instruction → Bool
   | .store _ | .unaryLogic _ | .halt | .nop | .wait | .jump _ | .jumpWhen _ | .jumpUnless _ | .label _
   | .include _ | .declaration _ | .fence _ | .reset _ | .measurement _ | .pragma _ => true
   | .gate _ | .setFrequency _ | .setPhase _ | .setScale _ | .shiftFrequency _ | .shiftPhase _
-  | .swapPhases _ | .delay _ => true
+  | .swapPhases _ | .delay _ | .capture _ | .pulse _ => true
   | .rawCapture r => r.memoryReference.name != "i"
   | _ => false
 
